@@ -408,7 +408,11 @@ pub fn run(tier: &str, shard: Option<&str>) -> Report {
                         Err(m) => emit(&mut rep, if m.starts_with("panic") { "panic" } else { "error" }, format!("{}: {m}", c.to_json()), &c, None),
                         Ok(got) => {
                             for q in &got {
-                                if q == &payload {
+                                // The original is acceptable as a repair
+                                // (fixing on); with fixing off only when a
+                                // region with a verifying CRC still exists
+                                // (the flips hit flags or padding).
+                                if q == &payload && fix {
                                     continue;
                                 }
                                 if !valid(&c.bits, q, true, fix) {
